@@ -29,7 +29,7 @@
    confined to the retained band; Resample preserves the mean; Project yields a divergence-free field. *)
 EXTENDS Nonlin, Tableau
 
-CONSTANTS Kinds,        \* subset of {"s1", "s2", "v2", "s3"}: scalar 1D, scalar 2D, vector 2D, scalar 3D
+CONSTANTS Kinds,        \* subset of {"s1", "s2", "v2", "s3", "v3"}: scalar 1D, scalar 2D, vector 2D, scalar 3D, vector 3D
           Sizes,        \* grid sizes, encoded D*1000 + N
           MaxNl,        \* bound on nonlinear evaluations per behaviour (keeps the rationals inside TLC's 32-bit integers)
           MaxRK,        \* largest Runge-Kutta order used in sessions (the wiring of orders 3, 4 is C02's business)
@@ -42,7 +42,7 @@ vars == <<D, N, st, last, nl, len, fam>>
 w == QOne
 Bq == QOne
 Dt == <<1, 4>>
-KindD(k) == IF k = "s1" THEN 1 ELSE IF k = "s3" THEN 3 ELSE 2
+KindD(k) == IF k = "s1" THEN 1 ELSE IF k \in {"s3", "v3"} THEN 3 ELSE 2
 IsVec == Len(st) > 1
 C == Len(st)
 
@@ -63,6 +63,7 @@ OddballF(c)      == [p \in {q \in DOMAIN c : N % 2 = 1 \/ 2 * VMaxAbs(q) < N} |-
 \* nonlinear terms: dealiased evaluation on true wavenumbers (the truncated input is Nyquist-free, so canonical = true wavenumbers)
 Frac(t) == IF t \in {"poly3"} THEN <<1, 2>> ELSE <<2, 3>>
 Cut(t) == DealiasCut(N, Frac(t)[1], Frac(t)[2])
+StAddF(U, V) == [c \in 1..Len(U) |-> FAdd(U[c], V[c])]
 OpS(t, U) ==
     CASE t = "conv_sc_cons"   -> ConvSCCons(D, w, Bq, U)
       [] t = "conv_sc_non"    -> ConvSCNon(D, w, Bq, U)
@@ -71,9 +72,14 @@ OpS(t, U) ==
       [] t = "gradnorm_fix"   -> GradNorm(D, w, Bq, TRUE, U)
       [] t = "poly2"          -> Poly(D, << <<0, 1>>, <<1, 2>>, <<-1, 1>> >>, U)
       [] t = "vort2d"         -> Vort2d(w, Bq, U)
-NOf(t, U) == Trunc(OpS(t, Trunc(U, Cut(t))), Cut(t))
-ScalarTerms == {"conv_sc_cons", "conv_sc_non", "gradnorm_fix", "poly2"} \cup (IF D = 2 THEN {"vort2d"} ELSE {})
-VectorTerms == {"conv_mc_cons", "conv_mc_non"}
+      [] t = "vort2d_kolm"    -> Vort2d(w, Bq, U)
+      [] t = "general"        -> General(D, w, << <<1, 2>>, <<-3, 2>>, <<2, 3>> >>, TRUE, U)
+      [] t = "rot3d"          -> Leray(3, w, Rot3dRaw(w, U))
+\* Kolmogorov forcing of the vorticity equation (injection mode 1, scale 1, w = 1):  - cos(x_1), added after the dealiased product
+KolmF == << (<<0, 1>> :> CReal(<<-1, 2>>)) @@ (<<0, -1>> :> CReal(<<-1, 2>>)) >>
+NOf(t, U) == LET conv == Trunc(OpS(t, Trunc(U, Cut(t))), Cut(t)) IN IF t = "vort2d_kolm" THEN StAddF(conv, KolmF) ELSE conv
+ScalarTerms == {"conv_sc_cons", "conv_sc_non", "gradnorm_fix", "poly2", "general"} \cup (IF D = 2 THEN {"vort2d", "vort2d_kolm"} ELSE {})
+VectorTerms == {"conv_mc_cons", "conv_mc_non"} \cup (IF D = 3 THEN {"rot3d"} ELSE {})
 Terms == IF IsVec THEN VectorTerms ELSE ScalarTerms
 \* Runge-Kutta step with the z -> 0 limits of the ETDRK tableau (every propagator is 1, every coefficient its value at z = 0)
 Lim(name) == SeriesCoef(Coef(name), 0)
@@ -148,7 +154,8 @@ Init == /\ \E k \in Kinds, e \in Sizes :
                         q == NthMode(D, N, i + 2)
                         f == FAdd(BasisOn(D, N, p, tr), FScale(CReal(a), BasisOn(D, N, q, "cos")))
                         g == FAdd(BasisOn(D, N, q, tr), FScale(CReal(a), BasisOn(D, N, p, "sin")))
-                    IN  st = IF k = "v2" THEN <<f, g>> ELSE <<f>>
+                        h == FAdd(BasisOn(D, N, NthMode(D, N, i + 1), "cos"), FScale(CReal(a), BasisOn(D, N, q, "sin")))
+                    IN  st = IF k = "v2" THEN <<f, g>> ELSE IF k = "v3" THEN <<f, g, h>> ELSE <<f>>
         /\ last = [op |-> "init"] /\ nl = 0 /\ len = 0 /\ fam = "none"
 
 Step(newst, lab, cost) == /\ st' = newst /\ last' = lab /\ nl' = nl + cost /\ len' = len + 1 /\ fam' = "none" /\ UNCHANGED <<D, N>>
@@ -174,6 +181,10 @@ AddMode == \E p \in {NthMode(D, N, i) : i \in 1..3}, tr \in {"cos", "sin"}, ch \
 Advect == \E v \in ShiftVecs : Step(MapCh(LAMBDA c : AdvectF(c, v)), [op |-> "advect", v |-> v], 0)
 AdvectN == \E v \in ShiftVecs, n \in 2..3, how \in {"repeat", "rollout", "substeps"} :
               Step(MapCh(LAMBDA c : IF how = "substeps" THEN AdvectSub(c, v, n) ELSE AdvectRep(c, v, n)), [op |-> "advectn", v |-> v, n |-> n, how |-> how], 0)
+\* ForcedStepper(advection stepper)(u, f): the step of u + dt f, with a real basis function as forcing (dt = 1/2)
+DtA == <<1, 2>>
+Forced == \E v \in ShiftVecs, p \in {NthMode(D, N, i) : i \in 1..2}, tr \in {"cos", "sin"} :
+              Step(MapCh(LAMBDA c : AdvectF(FAdd(c, FScale(CReal(DtA), BasisOn(D, N, p, tr))), v)), [op |-> "forced", v |-> v, p |-> p, trig |-> tr], 0)
 Observe(lab) == Step(st, lab, 0)
 Interp   == \E q \in QueryPts : (NyqFree \/ N % 4 = 0) /\ Observe([op |-> "interp", q |-> q, obs |-> [c \in 1..Len(st) |-> InterpAt(st[c], q)]])
 Spectrum == Small(st) /\ Observe([op |-> "spectrum", obs |-> [c \in 1..Len(st) |-> SpecOf(st[c])]])
@@ -182,7 +193,7 @@ Metric   == \E lo \in 0..2, hi \in {1, (N \div 2) - 1, (N \div 2) + 1} : lo <= h
 Coefs    == Observe([op |-> "coefs", obs |-> [c \in 1..Len(st) |-> CoefOf(st[c])]])
 \* Every step is taken in two halves: first a family of operations is chosen (all enabled families equally likely in TLC's simulation mode,
 \* and only the chosen family's successors have to be computed), then one member of the family is executed.
-Families == {"advect", "advectn", "interp", "spectrum", "metric", "coefs", "derive", "filter", "apply", "rk", "resample", "leray", "incomp", "poisson", "oddball", "addmode"}
+Families == {"advect", "advectn", "forced", "interp", "spectrum", "metric", "coefs", "derive", "filter", "apply", "rk", "resample", "leray", "incomp", "poisson", "oddball", "addmode"}
 FamGuard(f) == CASE f \in {"leray", "incomp"} -> IsVec /\ NyqFree
                  [] f = "derive"   -> ~IsVec
                  [] f = "apply"    -> nl + 1 <= MaxNl
@@ -191,7 +202,7 @@ FamGuard(f) == CASE f \in {"leray", "incomp"} -> IsVec /\ NyqFree
                  [] f = "interp"   -> NyqFree \/ N % 4 = 0
                  [] f \in {"spectrum", "metric"} -> Small(st)
                  [] OTHER -> TRUE
-FamAct(f) == CASE f = "advect" -> Advect [] f = "advectn" -> AdvectN [] f = "interp" -> Interp [] f = "spectrum" -> Spectrum [] f = "metric" -> Metric
+FamAct(f) == CASE f = "forced" -> Forced [] f = "advect" -> Advect [] f = "advectn" -> AdvectN [] f = "interp" -> Interp [] f = "spectrum" -> Spectrum [] f = "metric" -> Metric
                [] f = "coefs" -> Coefs [] f = "derive" -> Derive [] f = "filter" -> Filter [] f = "apply" -> Apply [] f = "rk" -> RK
                [] f = "resample" -> Resample [] f = "leray" -> Project [] f = "incomp" -> Incomp [] f = "poisson" -> Poisson
                [] f = "oddball" -> OddballA [] f = "addmode" -> AddMode
@@ -205,7 +216,9 @@ Spec == Init /\ [][Next]_vars
 RealOK == \A c \in 1..Len(st) : /\ TSRealN(N, st[c])
                                 /\ \A p \in DOMAIN st[c] : VWrap(N, p) = p /\ Len(p) = D
 \* a nonlinear evaluation / Runge-Kutta increment never leaves the retained band and never touches the Nyquist mode
-BandOK == (last.op = "apply") => \A c \in 1..Len(st) : \A p \in DOMAIN st[c] : VMaxAbs(p) <= Cut(last.term) /\ 2 * VMaxAbs(p) < N
+\* (the Kolmogorov forcing is injected after the dealiased product and is not subject to the cutoff: it is taken off first)
+BandOK == (last.op = "apply") => LET U == IF last.term = "vort2d_kolm" THEN [c \in 1..Len(st) |-> FSub(st[c], KolmF[c])] ELSE st IN
+                                 \A c \in 1..Len(U) : \A p \in DOMAIN U[c] : VMaxAbs(p) <= Cut(last.term) /\ 2 * VMaxAbs(p) < N
 \* filtering is idempotent and removes everything above the cutoff
 FilterOK == (last.op = "filter") => \A c \in 1..Len(st) : /\ \A p \in DOMAIN st[c] : VMaxAbs(p) <= last.cut
                                                           /\ FilterF(st[c], last.cut) = st[c]
@@ -235,6 +248,8 @@ AdvectOK == [][ (len' = len + 1 /\ last'.op \in {"advect", "advectn"}) =>
                    /\ NyqFree => /\ Small(st) => MeanSq(st') = MeanSq(st)
                                  /\ (last'.op = "advectn") => st' = MapCh(LAMBDA c : AdvectSub(c, last'.v, last'.n)) /\ st' = MapCh(LAMBDA c : AdvectRep(c, last'.v, last'.n)) ]_vars
 \* translation equivariance of every nonlinear term: shifting by one quarter period along each axis commutes with the evaluation
-ShiftAll(U) == [c \in 1..Len(U) |-> [p \in DOMAIN U[c] |-> CMul(NegIPow(VSum(p)), U[c][p])]]
-EquivOK == [][ (len' = len + 1 /\ last'.op = "apply" /\ NyqFree) => NOf(last'.term, ShiftAll(st)) = ShiftAll(st') ]_vars
+\* (the Kolmogorov forcing depends on x_1: that term is equivariant under shifts along the other axis only)
+ShiftAx(U, A) == [c \in 1..Len(U) |-> [p \in DOMAIN U[c] |-> CMul(NegIPow(FoldSet(LAMBDA d, acc : p[d] + acc, 0, A)), U[c][p])]]
+EquivOK == [][ (len' = len + 1 /\ last'.op = "apply" /\ NyqFree) =>
+                  LET A == IF last'.term = "vort2d_kolm" THEN {1} ELSE 1..D IN NOf(last'.term, ShiftAx(st, A)) = ShiftAx(st', A) ]_vars
 =============================================================================
